@@ -8,7 +8,7 @@ import core
 import toy
 from props import c02, c08
 
-REQUIRED_THEOREMS = ['cutSpecial_length', 'C17_hier_lengths', 'C17_grad_length', 'C17_reduced_lengths',
+REQUIRED_THEOREMS = ['C17_hier_lengths', 'C17_grad_length', 'C17_reduced_lengths',
                      'C17_prefixed_nodup']
 RULE = ('every kind of object (error models, population models incl. composed / covariate / reduced, individual '
         'and hierarchical likelihoods and posteriors, predictive models, SBML mechanistic models on the '
